@@ -282,3 +282,18 @@ def many_eras():
         lines.append('\t\t\t5:00\t-\tLAST')
         out.append(('eras', 'eras=%d' % (n + 1), '%d eras within 2012' % (n + 1), '\n'.join(lines), z))
     return out
+
+
+def link_source():
+    """-> (text, zone_names, expectations) Link lines in every relation to their target and to other names: plain, to a missing
+    zone, to another link, defined twice (zic: the last definition wins), named like an existing zone, and names that collide
+    after the C++ identifier normalisation ('-' and '_', '+')."""
+    text = '\n'.join([
+        'Rule\tLP\t1990\tmax\t-\tMar\tlastSun\t2:00\t1:00\tD', 'Rule\tLP\t1990\tmax\t-\tOct\tlastSun\t3:00\t0\tS',
+        'Zone\tA/one\t1:00\tLP\tX%sT', 'Zone\tA/two\t2:00\t-\tTWO', 'Zone\tA/B-C\t3:00\t-\tBMC', 'Zone\tA/B_C\t4:00\t-\tBUC',
+        'Zone\tA/x+y\t5:00\t-\tXPY', 'Zone\tEtc/GMT+1\t-1:00\t-\t-01', 'Zone\tEtc/GMT-1\t1:00\t-\t+01', 'Zone\tNoslash\t6:00\t-\tNSL',
+        'Link\tA/one\tL/one', 'Link\tA/two\tL/two', 'Link\tL/one\tL/chain', 'Link\tA/missing\tL/dangling',
+        'Link\tA/one\tL/dup', 'Link\tA/two\tL/dup', 'Link\tA/one\tL/B-C', 'Link\tA/two\tL/B_C', 'Link\tA/B_C\tL/toremoved']) + '\n'
+    zones = ['A/one', 'A/two', 'A/B-C', 'A/B_C', 'A/x+y', 'Etc/GMT+1', 'Etc/GMT-1', 'Noslash']
+    links = {'L/one': 'A/one', 'L/two': 'A/two', 'L/dup': 'A/two', 'L/B-C': 'A/one', 'L/B_C': 'A/two'}   # what zic makes of them
+    return text, zones, links
